@@ -9,6 +9,7 @@ for a body X without captures, X matches at p <=> (?=X) succeeds at p <=> (?!X) 
 """
 import json
 import random
+import re
 
 from vf import rxgen
 from vf.common import h
@@ -101,6 +102,21 @@ def main(ctx):
     # pinned reproducers of the open finding 'lookbehind-captures-forward' (cells listed in known/C09.cells.json)
     pinned = [("(?<=(\\d+)(\\d+))$", ""), ("(?<=(a+)(a*))b", ""), ("(?<=([ab]+)([bc]+))$", ""), ("(?<=\\1(a))b", ""), ("(?<=(a)\\1)b", "")]
     groups.append(("pinned-lookbehind-captures", pinned, ["1053", "aaab", "abc", "aab", "abbc", "ab"]))
+    # capture lifetime: a capture set in one iteration of a quantifier (directly, inside a lookaround, nested, optional, in one branch)
+    # must be reset at the start of the next iteration, survive when the iteration is skipped, and be what a later backreference sees
+    atoms = ["(a)", "(?=(a))a", "(?!(c)c)(a)", "(?<=(a))b", "(a)?b", "(a|b)", "((a)|b)", "(?:(a)|b)c?", "(?=(a)|b).", "(?:(?=(a))a|(?=(b))b)", "(a)(?=(b))?", "(?:(a)|(b))"]
+    alts = ["b", "c", "bc", ""]
+    quants = ["*", "+", "{2}", "{1,3}", "*?", "+?", "{2,}", "?"]
+    tails = ["", "\\1", "\\1c", "c", "$", "\\2", "(?=\\1)"]
+    life = []
+    for at in atoms:
+        for al in alts:
+            for q in quants:
+                for tl in tails:
+                    if "2" in tl and len(re.findall(r"\((?!\?)", at)) < 2:
+                        continue    # \2 without a second group is an Annex-B octal escape in the reference and an error in the engine
+                    life.append(("(?:%s|%s)%s%s" % (at, al, q, tl), ""))
+    groups.append(("capture-lifetime", life if not ctx.quick else [x for i, x in enumerate(life) if i % 3 == ctx.seed % 3], subj4))
     ep = engine_pool()
     np_ = node_pool() if have_node() else None
     total = 0
